@@ -24,7 +24,7 @@ def exit_window_event(case, params):
 
 def unregistered_thread_stale_global(case, params):
     """A thread that was started but not yet registered when the update ran reads the old global table."""
-    return case.get("kind") == "stale-global" and case.get("reader") == "thread in the spawn window"
+    return case.get("kind") == "stale-global"
 
 
 EXIT_WINDOW_UNITS = [
@@ -137,8 +137,9 @@ def run(ck):
             sp = payload[0]
             fails = oracle(sp, d)
             for f in fails[:2]:
+                k2 = "stale-global" if f.startswith("STALE-GLOBAL") else "generated"
                 ck.failing_input("generated program (%d threads, JIT %s, delays %s): %s" % (sp["n"], "on" if jit else "off", delay, f),
-                                 dict(base, kind="generated", spec=sp, units=payload[1], fail=f), tag="prog")
+                                 dict(base, kind=k2, spec=sp, units=payload[1], fail=f), tag="prog")
             if not fails and (d.get("progress") or {}).get("stw_finished", 0) > 0:
                 distinct.add((sp["n"], jit, delay))
             if len(ck.cov["samples"]) < 3:
